@@ -1,7 +1,7 @@
 (* FrameC's block compressor instantiated with the model of LZ4_compress_HC_continue at the LZ4MID level (2; Model.HcMidStream,
    attached dictionary context included), i.e. what lz4frame.c calls at level 2 for LINKED blocks
    (LZ4F_compressBlockHC_continue) and for independent blocks with a CDict (LZ4F_compressBlockHC), capacity srcSize-1.
-   Same explicit memory-model glue as Proofs.BlkInstLinked: the oracle gives memory, stream context, block address and the
+   Same explicit memory-model glue as Proofs.BlkInstFastLinked: the oracle gives memory, stream context, block address and the
    byte history designated by the context; the instance compresses only if that is consistent with the block and the
    history FrameC offers.  The invariants asked of the oracle are those every legal stream session maintains
    (C11_hc_mid_stream; the history invariant of the EFFECTIVE context is what C11_hc_mid_write_block provides). *)
